@@ -100,6 +100,12 @@ ObsClause(reg, prefs, rk, qm, q) ==
          ELSE IF o.k = "exc" /\ o.x = "UPUsageError" /\ want # NoEngine /\ q.mode = "replanner"
                  /\ q.og = "SOLVED_OPTIMALLY" /\ Range(q.f) \cap qm # {}
               THEN <<"replanner-optimal-refused-although-problem-has-metric", 0, o.x>>
+         \* the factory explicitly refuses an optimal Replanner for a problem WITHOUT quality metric
+         \* ("The problem has no quality metrics but the engine is required to be optimal!"): the
+         \* property statement is silent about this request; it is not judged
+         ELSE IF o.k = "exc" /\ o.x = "UPUsageError" /\ q.mode = "replanner"
+                 /\ q.og = "SOLVED_OPTIMALLY" /\ Range(q.f) \cap qm = {}
+              THEN <<"", 0, "">>
          ELSE IF o.k = "exc" THEN <<"unexpected-exception", 0, o.x>>
          ELSE <<"unexpected-answer", 0, o.k>>
 
